@@ -664,7 +664,7 @@ class Scheduler:
         cost.slack_buffering_cycles = ref_cost.cycles.op_cycles
         memory_snapshot = ref_schedule.memory_snapshot
         ref_memory_usage = memory_snapshot[ref_cost.time_index] if ref_cost.time_index < len(memory_snapshot) else 0
-        cost.slack_buffering_memory = staging_limit_bytes - ref_memory_usage
+        cost.slack_buffering_memory = staging_limit_bytes - int(ref_memory_usage)
         buffered_schedule.cost_map[sched_op] = cost
 
         # Attempt weight buffering on anything with a weights tensor
